@@ -14,7 +14,15 @@ base, middle or leaf table).  A history is a list of get/set/delete/add/expire/
 commit/flush+rollback/rollback operations; every session operation is atomic
 w.r.t. the database (pysqlite takes its write lock at the first DML of a flush and
 every flush here is followed by commit or rollback), so op interleavings are all
-the schedules SQLite admits.
+the schedules SQLite admits.  `n` opens a SAVEPOINT (Session.begin_nested(), on a
+session with nothing to flush); the session's next commit then flushes INSIDE the
+SAVEPOINT and, when that flush is rejected, rolls back the SAVEPOINT only and commits
+the enclosing transaction (the application "catches StaleDataError and goes on");
+such an episode is contiguous (one session; it holds SQLite locks meanwhile).
+Generators: random histories (with SAVEPOINT episodes), a "batch" family (one flush
+writes several rows whose version counters differ; the writer keeps using its objects
+without reload: expire_on_commit off / second flush), all short op sequences over a
+two-session alphabet, all short in-memory op sequences inside a SAVEPOINT.
 
 Direct oracle (independent of the Lean model): an optimistic-concurrency
 reference kept from ORM load/refresh events and an observer connection:
@@ -24,7 +32,9 @@ reference kept from ORM load/refresh events and an observer connection:
  * a successful commit writes exactly the intended rows with the intended values,
    bumps the version of every updated row (old+1, or a never-used value for the
    user generator) and leaves the other rows alone;
- * a StaleDataError is raised only when a written row really changed or vanished.
+ * a StaleDataError is raised only when a written row really changed or vanished;
+ * after a successful commit without expiry every written object carries the version its
+   own row was written with (per record, whatever else the flush wrote).
 """
 import itertools
 import os
@@ -36,8 +46,8 @@ PID = "C44"
 LEVEL = "proof"
 LEAN = ["SaVerif.Props.C44"]
 META = {
-    "text": "Lean theorems over ALL histories (any number of sessions, rows and operations, by induction over the step function of the session/database transition system): a flush that writes a row whose version (after the flush-time load of an expired version) is not the current one, or whose row vanished, does not succeed; every unsuccessful commit and every flush+rollback leaves the database unchanged; every successful UPDATE increments the version by exactly one (counter) and unchanged rows keep theirs; no successful write replaces a row content the writer had not seen (ghost stamps) - unconditionally for a generator of never-used values, and for the integer counter unless a deleted primary key was re-inserted (the counter restarts at 1: proved counterexample, replayed on the real code as a known finding). The model is tied to orm/persistence.py by a differential run of generated and small-scope-exhaustive histories on real Sessions over a SQLite file (4 mapping variants incl. server-side versioning and joined inheritance), and the property itself is re-checked on the real outcome by an independent optimistic-concurrency reference.",
-    "note": "Trusted: Lean kernel; the correspondence (sampling + exhaustive up to a small length); SQLite as the only backend (rowcount semantics of other DBAPIs are not exercised); post_update and relationship-driven flush paths with a version column are not modelled. no_lost_update for the integer counter is a _partial theorem (hypothesis: no re-insert of a deleted primary key) with a proved counterexample.",
+    "text": "Lean theorems over ALL histories (any number of sessions, rows and operations, by induction over the step function of the session/database transition system): a flush that writes a row whose version (after the flush-time load of an expired version) is not the current one, or whose row vanished, does not succeed; every unsuccessful commit and every flush+rollback leaves the database unchanged; every successful UPDATE increments the version by exactly one (counter) and unchanged rows keep theirs; no successful write replaces a row content the writer had not seen (ghost stamps) - unconditionally for a generator of never-used values, and for the integer counter unless a deleted primary key was re-inserted (the counter restarts at 1: proved counterexample, replayed on the real code as a known finding). A rejected flush leaves no pending object, deletion mark or modified object behind - after rollback(), and also when it ran inside a SAVEPOINT (begin_nested) that alone is rolled back while the enclosing transaction commits - so the rejected change is never written later (failed_commit_leaves_nothing_to_write, failed_commit_then_commit_db_unchanged; uses the expiry condition of SessionTransaction._restore_snapshot, regenerated from the source); every record of a successful multi-row flush leaves its object with the version stored in its own row (writer_version_eq_row_after_commit; one UPDATE per versioned record: the allow_executemany conjunction of _emit_update_statements is regenerated from the source). The model is tied to orm/persistence.py and orm/session.py by a differential run of generated and small-scope-exhaustive histories on real Sessions over a SQLite file (7 mapping variants incl. server-side versioning and joined inheritance; SAVEPOINT episodes; multi-row flushes over rows with different counters by sessions that re-use their objects), and the property itself is re-checked on the real outcome by an independent optimistic-concurrency reference.",
+    "note": "Trusted: Lean kernel; the correspondence (sampling + exhaustive up to a small length); SQLite as the only backend (rowcount semantics of other DBAPIs are not exercised); post_update and relationship-driven flush paths with a version column are not modelled. SAVEPOINTs: only begin_nested() on a session with nothing to flush, one flush inside, then release+commit or savepoint-rollback+commit (a successful flush inside a SAVEPOINT that is rolled back later is not modelled); the model's per-batch postfetch branch (versionedUpdateExecutemany = true) is dead on the unchanged tree. no_lost_update for the integer counter is a _partial theorem (hypothesis: no re-insert of a deleted primary key) with a proved counterexample.",
     "technique": "Lean 4 invariant proof over an LTS of sessions + differential correspondence with real Sessions on SQLite + independent reference oracle",
     "design_ref": "DESIGN.md §3 C30–C48 (C44)",
 }
@@ -97,6 +107,55 @@ def parse_default_generator():
     return start, step
 
 
+def parse_versioned_update_executemany(src):
+    """persistence._emit_update_statements: `allow_executemany = A and B ...`.  Returns True when
+    versioned rows may be batched (no top-level conjunct `not needs_version_id`), False when they
+    are excluded, None when the assignment has another shape."""
+    import ast
+
+    for node in ast.walk(ast.parse(src)):
+        if isinstance(node, ast.FunctionDef) and node.name == "_emit_update_statements":
+            assigns = [
+                n for n in ast.walk(node)
+                if isinstance(n, ast.Assign) and len(n.targets) == 1 and isinstance(n.targets[0], ast.Name)
+                and n.targets[0].id == "allow_executemany"
+            ]
+            if len(assigns) != 1:
+                return None
+            v = assigns[0].value
+            conj = v.values if isinstance(v, ast.BoolOp) and isinstance(v.op, ast.And) else [v]
+
+            def excludes_versioned(e):
+                return (isinstance(e, ast.UnaryOp) and isinstance(e.op, ast.Not)
+                        and isinstance(e.operand, ast.Name) and e.operand.id == "needs_version_id")
+
+            return not any(excludes_versioned(e) for e in conj)
+    return None
+
+
+def parse_savepoint_rollback_expiry(src):
+    """session.SessionTransaction._restore_snapshot: the states expired when a SAVEPOINT is rolled
+    back (dirty_only=True).  Returns True when the function expires states (calls `._expire(`) and
+    some condition inside it reads `<state>.modified`, False when `._expire(` is called but no
+    condition mentions `.modified`, None when no expiry is found at all."""
+    import ast
+
+    for node in ast.walk(ast.parse(src)):
+        if isinstance(node, ast.FunctionDef) and node.name == "_restore_snapshot":
+            expires = any(isinstance(n, ast.Call) and isinstance(n.func, ast.Attribute) and n.func.attr == "_expire"
+                          for n in ast.walk(node))
+            if not expires or not any(isinstance(a, ast.arg) and a.arg == "dirty_only" for a in node.args.args):
+                return None
+            tests = []
+            for n in ast.walk(node):
+                if isinstance(n, (ast.If, ast.IfExp, ast.While)):
+                    tests.append(n.test)
+                elif isinstance(n, ast.comprehension):
+                    tests.extend(n.ifs)
+            return any(isinstance(a, ast.Attribute) and a.attr == "modified" for t in tests for a in ast.walk(t))
+    return None
+
+
 def gen(ctx):
     """Translator: the default version_id_generator lambda of orm/mapper.py and the
     shape of the was_already_deleted branch of persistence._organize_states_for_save
@@ -134,8 +193,22 @@ def gen(ctx):
         keeps is not None,
         "row-switch detection has another shape; the model's Act.insDel branch cannot be regenerated",
     )
-    if start is None or keeps is None:
+    batched = parse_versioned_update_executemany(src)
+    ctx.obligation(
+        "translator: persistence._emit_update_statements assigns `allow_executemany = <conjunction>` exactly once",
+        batched is not None,
+        "assignment not found or of another shape; the model's per-record / per-batch postfetch switch cannot be regenerated",
+    )
+    sess_src = open(os.path.join(vlib.REPO, "lib", "sqlalchemy", "orm", "session.py")).read()
+    expmod = parse_savepoint_rollback_expiry(sess_src)
+    ctx.obligation(
+        "translator: SessionTransaction._restore_snapshot expires states under a recognisable condition over dirty_only / s.modified / self._dirty",
+        expmod is not None,
+        "expiry loop not found or of another shape; the model's savepoint-rollback expiry set cannot be regenerated",
+    )
+    if start is None or keeps is None or batched is None or expmod is None:
         return
+    B = lambda b: "true" if b else "false"
     ctx.write_gen(
         "VersionCfg",
         "namespace SaVerif.Gen.VersionCfg\n"
@@ -145,7 +218,14 @@ def gen(ctx):
         "/-- orm/persistence.py `_organize_states_for_save`: when `was_already_deleted(existing)`\n"
         "    is true the expired state stays registered for DELETE (no `remove_state_actions`) -/\n"
         "def rowSwitchVanishedKeepsDelete : Bool := %s\n"
-        "end SaVerif.Gen.VersionCfg\n" % (start, step, start, step, "true" if keeps else "false"),
+        "/-- orm/persistence.py `_emit_update_statements`: `allow_executemany = ...` does NOT carry the\n"
+        "    conjunct `not needs_version_id`, i.e. versioned rows of one group go out as ONE executemany\n"
+        "    UPDATE and every record is post-fetched from `compiled_parameters[0]` (the first record) -/\n"
+        "def versionedUpdateExecutemany : Bool := %s\n"
+        "/-- orm/session.py `SessionTransaction._restore_snapshot(dirty_only=True)` (SAVEPOINT rollback):\n"
+        "    the expiry condition mentions `s.modified` (modified-but-unflushed states are expired) -/\n"
+        "def savepointRollbackExpiresModified : Bool := %s\n"
+        "end SaVerif.Gen.VersionCfg\n" % (start, step, start, step, B(keeps), B(batched), B(expmod)),
     )
 
 
@@ -327,6 +407,8 @@ def _run_history(case):
     lost_flag = False
     reins_flag = False
     sess_index = {id(s): i for i, s in enumerate(sessions)}
+    spx = [None] * nsess  # open SAVEPOINT (SessionTransaction of begin_nested) per session
+    modk = [set() for _ in range(nsess)]  # rows whose persistent object was assigned to since the last flush / expire
 
     def listener(target, attrs):
         st = inspect(target)
@@ -370,6 +452,10 @@ def _run_history(case):
             for op in ops:
                 kind, s = op[0], op[1]
                 sess = sessions[s]
+                if any(spx[t] is not None for t in range(nsess) if t != s):
+                    # a session inside a SAVEPOINT holds SQLite locks until its transaction ends:
+                    # the generators keep such episodes contiguous
+                    raise ValueError("ill-formed history: op %s while another session has an open SAVEPOINT" % (op,))
                 if kind == "g":
                     k = op[2]
                     o = pers[s].get(k)
@@ -397,6 +483,7 @@ def _run_history(case):
                         o = pers[s][k]
                         b = base[s].get(k, BLIND)
                         o.val = v
+                        modk[s].add(k)
                         if b is BLIND or b != v:
                             intent[s][k] = ("val", v)
                         else:
@@ -434,6 +521,7 @@ def _run_history(case):
                     k = op[2]
                     if k in pers[s] and k not in pend[s] and pers[s][k] not in sess.deleted:
                         sess.expire(pers[s][k])
+                        modk[s].discard(k)
                         intent[s].pop(k, None)
                         seen[s].pop(k, None)
                         base[s].pop(k, None)
@@ -447,15 +535,38 @@ def _run_history(case):
                         clear_shadow(s)
                     else:
                         sess.rollback()
+                    spx[s] = None
+                    modk[s].clear()
                     outs.append("d")
+                elif kind == "n":
+                    # begin_nested() flushes first: only on a session with nothing to flush
+                    if spx[s] is not None or sess.new or sess.dirty or sess.deleted:
+                        outs.append("-")
+                    else:
+                        spx[s] = sess.begin_nested()
+                        outs.append("d")
                 elif kind in ("c", "f"):
                     before = db
                     had_txn = sess.in_transaction()
                     plan = dict(intent[s])
                     seen_before = dict(seen[s])
+                    insp = spx[s] is not None and kind == "c"
+
+                    def recover():
+                        if insp:
+                            # the application catches the error, gives up the SAVEPOINT only and
+                            # goes on with (here: commits) the enclosing transaction
+                            spx[s].rollback()
+                            sess.commit()
+                        else:
+                            sess.rollback()
+
                     try:
                         if kind == "c":
-                            if case.get("flushfirst"):
+                            if insp:
+                                sess.flush()  # inside the SAVEPOINT
+                                spx[s].commit()  # RELEASE
+                            elif case.get("flushfirst"):
                                 sess.flush()
                             sess.commit()
                         else:
@@ -463,13 +574,13 @@ def _run_history(case):
                             sess.rollback()
                         outcome = "ok"
                     except StaleDataError:
-                        sess.rollback()
+                        recover()
                         outcome = "stale"
                     except IntegrityError:
-                        sess.rollback()
+                        recover()
                         outcome = "integrity"
                     except ObjectDeletedError:
-                        sess.rollback()
+                        recover()
                         outcome = "gone"
                     except Exception as e:  # any other exception out of a flush of valid state is a defect
                         outcome = "error-" + type(e).__name__
@@ -478,6 +589,7 @@ def _run_history(case):
                             sess.rollback()
                         except Exception:
                             pass
+                    spx[s] = None
                     after = w.rows()
                     # ------------------------------------------------ reference oracle
                     changed = [k for k in set(before) | set(after) if before.get(k) != after.get(k)]
@@ -498,8 +610,9 @@ def _run_history(case):
                     if outcome == "ok":
                         # known defect: row switch onto an expired, deleted-marked object whose row vanished
                         vanished_switch = [k for k in gone_k if plan[k][0] == "switch" and k not in seen_before]
-                        if vanished_switch and kind == "c":
-                            lostk = [k for k in vanished_switch if k not in after]
+                        if vanished_switch:
+                            # (flush + rollback: the table is back to `before`, nothing can be "lost")
+                            lostk = [k for k in vanished_switch if k not in after] if kind == "c" else []
                             if lostk:
                                 problems.append((KEY_INSDEL,
                                                  "session %d: delete(expired obj) + add(new obj, same pk %s) committed without error but the new row is not in the table: before=%s after=%s"
@@ -539,6 +652,19 @@ def _run_history(case):
                             for k in changed:
                                 if k not in plan:
                                     problems.append(("unintended-row-changed", "row %d: %s -> %s" % (k, before.get(k), after.get(k))))
+                            if not eoc:
+                                # the writer goes on with the objects it has: each must carry the version its
+                                # own UPDATE / INSERT stored (else its next flush is spuriously stale, or
+                                # overwrites a later change of somebody else unseen)
+                                for k, it in plan.items():
+                                    o = pend[s].get(k)  # not yet pruned: the object just inserted / switched in
+                                    if o is None:  # (instances are falsy: no `or`)
+                                        o = pers[s].get(k)
+                                    if it[0] != "del" and k in after and o is not None and "ver" in o.__dict__:
+                                        if o.__dict__["ver"] != after[k][1]:
+                                            problems.append(("writer-version-differs-from-row-after-commit",
+                                                             "session %d row %d: object carries version %s, its row was written with %s (flush of rows %s)"
+                                                             % (s, k, o.__dict__["ver"], after[k][1], sorted(plan))))
                     else:
                         just = {"stale": stale_k or gone_k, "integrity": dup_k, "gone": gone_k}.get(outcome, True)
                         if not just:
@@ -572,8 +698,19 @@ def _run_history(case):
                         if eoc:
                             seen[s].clear()
                             base[s].clear()
+                    elif outcome != "ok" and insp:
+                        # SAVEPOINT rolled back: pending objects expunged, deletions reverted, the
+                        # assigned-to objects expired; untouched objects stay as loaded
+                        intent[s].clear()
+                        for k in modk[s]:
+                            seen[s].pop(k, None)
+                            base[s].pop(k, None)
+                        if eoc:
+                            seen[s].clear()
+                            base[s].clear()
                     elif outcome != "ok" or had_txn:
                         clear_shadow(s)
+                    modk[s].clear()
                     outs.append(outcome + showdb(after))
                 else:
                     raise ValueError(op)
@@ -659,12 +796,96 @@ def gen_random(rng, tier):
             ops.append(("f", s))
         else:
             ops.append(("r", s))
+    if rng.random() < 0.3:
+        # a SAVEPOINT episode of one session: contiguous (the session holds SQLite locks meanwhile)
+        pos = rng.randrange(len(ops) // 2, len(ops) + 1)
+        ops[pos:pos] = sp_episode(rng, rng.randrange(nsess), npk)
     # make pending work visible: everybody commits at the end
     order = list(range(nsess))
     rng.shuffle(order)
     for s in order:
         ops.append(("c", s))
     return nsess, npk, ops
+
+
+def sp_episode(rng, s, npk):
+    """[commit,] begin_nested, a few in-memory ops of the same session, then flush inside the
+    SAVEPOINT + commit (mostly) / flush + rollback / rollback"""
+    ep = [("c", s)] if rng.random() < 0.6 else []
+    ep.append(("n", s))
+    for _ in range(rng.randint(1, 3)):
+        k = rng.randrange(npk)
+        r = rng.random()
+        if r < 0.5:
+            ep.append(("s", s, k, rng.randint(7, 9)))
+        elif r < 0.65:
+            ep.append(("d", s, k))
+        elif r < 0.8:
+            ep.append(("a", s, k, rng.randint(4, 6)))
+        elif r < 0.9:
+            ep.append(("g", s, k))
+        else:
+            ep.append(("x", s, k))
+    ep.append(rng.choice([("c", s)] * 8 + [("f", s), ("r", s)]))
+    if rng.random() < 0.5:
+        ep.append(("c", s))  # the session goes on: nothing of a rejected flush may come back
+    return ep
+
+
+def gen_batch(rng, tier):
+    """flushes that write SEVERAL rows whose version counters differ, by sessions that keep
+    using their objects afterwards (second flush without reload: expire_on_commit off, mostly)"""
+    nsess = rng.choice([2, 2, 3])
+    npk = rng.choice([2, 3, 3, 4])
+    val = itertools.count(10)
+    ops = [("a", 0, k, 0) for k in range(npk)] + [("c", 0)]
+    # stagger the version counters with single-row commits
+    for k in range(npk):
+        for _ in range(rng.choice([0, 0, 1, 2])):
+            ops += [("s", 0, k, next(val)), ("c", 0)]
+    for s in range(1, nsess):
+        ops += [("g", s, k) for k in range(npk) if rng.random() < 0.8]
+    for _ in range(rng.randint(1, 3 if tier == "quick" else 5)):
+        wr = rng.randrange(nsess)
+        ks = [k for k in range(npk) if rng.random() < 0.75] or [rng.randrange(npk)]
+        for k in ks:
+            if rng.random() < 0.4:
+                ops.append(("g", wr, k))
+            r = rng.random()
+            if r < 0.85:
+                ops.append(("s", wr, k, next(val)))
+            elif r < 0.92:
+                ops.append(("d", wr, k))
+            else:
+                ops += [("d", wr, k), ("a", wr, k, next(val))]
+        if rng.random() < 0.2:
+            ops.append(("n", wr))  # skipped ("-") on both sides when there is something to flush
+        ops.append(("c", wr))
+        # what the writer now holds in memory
+        ops += [("g", wr, k) for k in ks if rng.random() < 0.7]
+        # somebody else moves some of these rows on; the writer, unaware, writes them again
+        ot = rng.choice([t for t in range(nsess) if t != wr])
+        for k in rng.sample(ks, min(len(ks), rng.choice([1, 1, 2]))):
+            for _ in range(rng.choice([1, 1, 2])):
+                ops += [("g", ot, k), ("s", ot, k, next(val)), ("c", ot)]
+        if rng.random() < 0.7:
+            ops += [("s", wr, k, next(val)) for k in ks if rng.random() < 0.6] + [("c", wr)]
+    order = list(range(nsess))
+    rng.shuffle(order)
+    for s in order:
+        ops.append(("c", s))
+    return nsess, npk, ops
+
+
+def small_scope_sp(length):
+    """SAVEPOINT episodes of session 1 on one row that session 0 has / has not changed or deleted
+    meanwhile: every sequence of `length` in-memory ops inside the SAVEPOINT, flush inside it,
+    then the session goes on"""
+    alpha = [("g", 1, 0), ("s", 1, 0, 3), ("d", 1, 0), ("a", 1, 0, 6), ("x", 1, 0)]
+    for bump in ([], [("s", 0, 0, 2), ("c", 0)], [("d", 0, 0), ("c", 0)]):
+        for seq in itertools.product(alpha, repeat=length):
+            for close in (("c", 1), ("f", 1)):
+                yield [("a", 0, 0, 1), ("c", 0), ("g", 1, 0)] + bump + [("n", 1)] + list(seq) + [close, ("c", 1), ("g", 1, 0), ("c", 0)]
 
 
 def small_scope(length):
@@ -686,7 +907,7 @@ def gen_cases(ctx, deep=False):
         yield {"variant": variant, "eoc": 0, "npk": 1, "nsess": 2, "ops": ABA_OPS, "src": "aba"}
         yield {"variant": variant, "eoc": 0, "npk": 1, "nsess": 2, "ops": INSDEL_OPS, "src": "insdel"}
     yield {"variant": "fresh", "eoc": 0, "npk": 1, "nsess": 2, "ops": ABA_OPS, "src": "aba"}
-    nrand = 2400 if thorough else 700
+    nrand = 2400 if thorough else 560
     for i in range(nrand):
         nsess, npk, ops = gen_random(ctx.rng, ctx.tier)
         for variant in VARIANTS:
@@ -694,6 +915,16 @@ def gen_cases(ctx, deep=False):
                 continue
             yield {"variant": variant, "eoc": ctx.rng.choice([0, 0, 1]), "npk": npk, "nsess": nsess, "ops": ops,
                    "flushfirst": ctx.rng.random() < 0.2, "src": "random"}
+    for i in range(800 if thorough else 110):
+        nsess, npk, ops = gen_batch(ctx.rng, ctx.tier)
+        for variant in VARIANTS:
+            if not thorough and ctx.rng.random() < 0.6:
+                continue
+            yield {"variant": variant, "eoc": ctx.rng.choice([0, 0, 0, 1]), "npk": npk, "nsess": nsess, "ops": ops,
+                   "flushfirst": ctx.rng.random() < 0.2, "src": "batch"}
+    for seq in small_scope_sp(2 if thorough else 1):
+        for variant in VARIANTS if thorough else (ctx.rng.choice(VARIANTS),):
+            yield {"variant": variant, "eoc": ctx.rng.choice([0, 1]), "npk": 1, "nsess": 2, "ops": seq, "src": "savepoint"}
     length = 3 if thorough else 2
     for seq in small_scope(length):
         for variant in VARIANTS if thorough else (ctx.rng.choice(VARIANTS),):
@@ -728,7 +959,9 @@ def _budget_exhausted(ctx, t0, n):
 
 def run(ctx, deep=False):
     ctx.rule = (
-        "histories of get/set/delete/add/expire/commit/flush+rollback/rollback over 2-3 real Sessions and 1-3 rows on a SQLite file, "
+        "histories of get/set/delete/add/expire/commit/flush+rollback/rollback/begin_nested over 2-3 real Sessions and 1-4 rows on a SQLite file "
+        "(SAVEPOINT episodes: flush inside the SAVEPOINT, on rejection savepoint-only rollback + commit; batch family: multi-row flushes over rows "
+        "with different version counters, objects re-used without reload; every 1-op (quick) / 2-op (thorough) in-memory sequence inside a SAVEPOINT x 3 concurrent-change prefixes), "
         "7 mapping variants (incl. 3-level joined inheritance with the changed column in the base / middle / leaf table) x expire_on_commit, random (seeded) + every sequence of 2 (quick) / 3 (thorough; 12% of length 4) ops over a 15-letter "
         "2-session/1-row alphabet after a create+load prefix; a case is non-trivial when at least one commit had something to write"
     )
